@@ -5,18 +5,20 @@ import iso8601
 
 from ..backends import BACKENDS, Store
 from ..gen import canon, dt_us, mk_dt, mk_event, rand_data, rand_instant, rand_offset
-from ._st import dump_store
+from ._st import dump_store, raw_uids, raw_view
 
 ID = "C05"
 LEVEL = "exploration"
 ANCHOR_FILES = ["aw_datastore/datastore.py", "aw_datastore/storages/memory.py", "aw_datastore/storages/sqlite.py",
                 "aw_datastore/storages/peewee.py"]
-REQUIRED_COUNTERS = ["steps.memory", "steps.sqlite", "steps.peewee", "missing_bucket_probes", "recreate_checks"]
+REQUIRED_COUNTERS = ["steps.memory", "steps.sqlite", "steps.peewee", "missing_bucket_probes", "recreate_checks", "quiet_state_checks"]
 RULE = ("histories of 10-40 steps over a pool of 4-6 bucket ids (ASCII, unicode, spaces, quotes, %): create "
         "(with/without name, data, explicit creation instant), update (random non-empty subset of fields), delete, "
         "re-create, lookup, metadata through fresh and stale handles, listing, event writes, and the same operations "
         "against ids that do not exist; after every step the listing's key set, every live bucket's metadata and "
-        "event count are compared with a dict model; evaluations = steps; non-trivial = history contains "
+        "event count are compared with a dict model - through API reads, or (half of the cases, 'quiet') through the writer "
+        "connection's own uncommitted view with one API comparison at the end, because an API read of events commits "
+        "on the lazy store and would hide lost pending writes; evaluations = steps; non-trivial = history contains "
         "delete-then-re-create of an id that held events, or an operation on a missing id; signature = (backend, op "
         "kind, target state: live/missing/recreated/had-events, fields supplied)")
 ASSUMPTIONS = ["creating an id that already exists is outside the statement and never generated",
@@ -77,7 +79,7 @@ def gen_case(rng, ctx):
                       dict(op="delete", b=bid),
                       dict(op="create", b=rng.choice([bid, rng.randrange(len(pool))]), type="t2", client="c2", hostname="h2"),
                       dict(op="metadata", b=bid, stale=True)]
-    return dict(backend=backend, pool=pool, steps=steps)
+    return dict(backend=backend, pool=pool, steps=steps, quiet=rng.random() < 0.5)
 
 
 def _check_state(ds, model, events, viols, where):
@@ -114,6 +116,25 @@ def _check_state(ds, model, events, viols, where):
             viols.append(("bucket-events-differ", f"{where} bucket={bid!r} model_uids={sorted(events[bid])} got_uids={got_uids} count={n}"))
 
 
+def _check_quiet(st, model, events, viols, where):
+    """The same comparison through the writer connection's own view (no API read of events: that would commit)."""
+    rows, _ = raw_view(st)
+    got = raw_uids(rows)
+    if set(got) != set(model):
+        viols.append(("listing-keys-differ", f"{where} (writer view) model={sorted(model)} got={sorted(got)}"))
+        return
+    meta = {r[1]: r for r in rows if r[0] == "B"}
+    for bid, want in model.items():
+        r = meta[bid]
+        for f, v in (("type", r[3]), ("client", r[4]), ("hostname", r[5])):
+            if v != want[f]:
+                viols.append((f"metadata-{f}-differs", f"{where} (writer view) bucket={bid!r}: want={want[f]!r} got={v!r}"))
+        if want.get("name") is not None and r[2] != want["name"]:
+            viols.append(("metadata-name-differs", f"{where} (writer view) bucket={bid!r}: want={want['name']!r} got={r[2]!r}"))
+        if sorted(got[bid]) != sorted(events[bid]):
+            viols.append(("bucket-events-differ", f"{where} (writer view) bucket={bid!r} model_uids={sorted(events[bid])} got_uids={sorted(got[bid])}"))
+
+
 def run_case(case, ctx):
     backend = case["backend"]
     viols = []
@@ -121,6 +142,7 @@ def run_case(case, ctx):
     pool = case["pool"]
     with Store(backend, ctx.tmp) as st:
         ds = st.ds
+        quiet = bool(case.get("quiet")) and backend != "memory"
         model, events, handles = {}, {}, {}
         had_events = set()
         executed = 0
@@ -132,7 +154,7 @@ def run_case(case, ctx):
             state = "live" if live else "missing"
             before = None
             if not live:
-                before = dump_store(ds)
+                before = raw_view(st)[0] if quiet else dump_store(ds)
             try:
                 if op == "create":
                     if live:
@@ -237,13 +259,20 @@ def run_case(case, ctx):
             ctx.count(f"steps.{backend}")
             executed += 1
             if before is not None and not live:
-                after = dump_store(ds)
+                after = raw_view(st)[0] if quiet else dump_store(ds)
                 if after != before:
-                    viols.append(("failed-operation-changed-the-store", f"{where}: before={before!r:.300} after={after!r:.300}"))
-            _check_state(ds, model, events, viols, where)
+                    diff = sorted(set(before) ^ set(after), key=repr)[:4] if quiet else (before, after)
+                    viols.append(("failed-operation-changed-the-store", f"{where}{' (writer view)' if quiet else ''}: {diff!r:.500}"))
+            if quiet:
+                _check_quiet(st, model, events, viols, where)
+                ctx.count("quiet_state_checks")
+            else:
+                _check_state(ds, model, events, viols, where)
             ctx.sigs.add(canon([backend, op, state, sorted(s.get("fields", {})) if op == "update" else
                                 [x for x in ("name", "data", "created") if x in s]]))
             if viols:
                 break
+        if quiet and not viols:
+            _check_state(ds, model, events, viols, f"{backend} at the end of a quiet history")
     viols = [(f"{backend}:{k}", d) for k, d in viols]
     return viols, dict(sig=None, nontrivial=nontriv > 0, weight=max(1, executed), nontrivial_weight=nontriv)
